@@ -105,7 +105,35 @@ def _functions(tree: ast.Module):
 
 
 # --------------------------------------------------------------------------------------------- constant folding
-def fold_constants(tree: ast.Module, known: Set[str], stats: dict) -> None:
+def new_scalar_constants(tree: ast.Module, known: Set[str]) -> Dict[str, object]:
+    """Module-level names outside the baseline vocabulary bound exactly once to a scalar constant expression."""
+    binds: Dict[str, List[ast.AST]] = {}
+    for st in tree.body:
+        if isinstance(st, ast.Assign):
+            for t in st.targets:
+                for n in ast.walk(t):
+                    if isinstance(n, ast.Name):
+                        binds.setdefault(n.id, []).append(st.value if (len(st.targets) == 1 and t is n) else None)
+        elif isinstance(st, ast.AnnAssign) and isinstance(st.target, ast.Name):
+            binds.setdefault(st.target.id, []).append(st.value)
+        elif isinstance(st, ast.AugAssign) and isinstance(st.target, ast.Name):
+            binds.setdefault(st.target.id, []).append(None)
+    out: Dict[str, object] = {}
+    for name, vals in binds.items():
+        if name in known or len(vals) != 1 or vals[0] is None:
+            continue
+        try:
+            out[name] = _const_value(vals[0])
+        except ValueError:
+            continue
+    for n in ast.walk(tree):
+        if isinstance(n, ast.Global):
+            for x in n.names:
+                out.pop(x, None)
+    return out
+
+
+def fold_constants(tree: ast.Module, known: Set[str], stats: dict, foreign: Optional[Dict[str, Dict[str, object]]] = None) -> None:
     binds: Dict[str, List[ast.AST]] = {}
     for st in tree.body:
         if isinstance(st, ast.Assign):
@@ -145,7 +173,23 @@ def fold_constants(tree: ast.Module, known: Set[str], stats: dict) -> None:
             for x in n.names:
                 consts.pop(x, None)
                 exprs.pop(x, None)
-    if not consts and not exprs:
+    # new constants of sibling modules that this module imports by name (`from .c2 import SIZE [as S]`)
+    mod_alias: Dict[str, str] = {}
+    for st in tree.body:
+        if isinstance(st, ast.ImportFrom) and foreign:
+            srcmod = (st.module or "").split(".")[-1]
+            for al in st.names:
+                local = al.asname or al.name
+                if srcmod in foreign and al.name in foreign[srcmod] and local not in known and local not in binds:
+                    consts[local] = foreign[srcmod][al.name]
+                if al.name in foreign and (st.module or "").endswith("cobaltstrike") or (st.level and not st.module and al.name in foreign):
+                    mod_alias[local] = al.name
+        elif isinstance(st, ast.Import) and foreign:
+            for al in st.names:
+                last = al.name.split(".")[-1]
+                if al.asname and last in foreign and "cobaltstrike" in al.name:
+                    mod_alias[al.asname] = last
+    if not consts and not exprs and not mod_alias:
         return
 
     class Fold(ast.NodeTransformer):
@@ -164,6 +208,16 @@ def fold_constants(tree: ast.Module, known: Set[str], stats: dict) -> None:
                 return new
             return node
 
+        def visit_Attribute(self, node):
+            # <module alias>.NEW_CONSTANT of a sibling module
+            if isinstance(node.ctx, ast.Load) and isinstance(node.value, ast.Name) and node.value.id in mod_alias and node.value.id not in self.shadow:
+                fc = (foreign or {}).get(mod_alias[node.value.id], {})
+                if node.attr in fc:
+                    stats.setdefault("folded_constants", set()).add(f"{mod_alias[node.value.id]}.{node.attr}")
+                    return ast.copy_location(ast.Constant(value=fc[node.attr]), node)
+            self.generic_visit(node)
+            return node
+
     for _q, fn, _c in _functions(tree):
         Fold(_local_names(fn)).visit(fn)
     # class-level statements other than functions (e.g. attribute defaults) and other module-level constants that use them
@@ -172,6 +226,21 @@ def fold_constants(tree: ast.Module, known: Set[str], stats: dict) -> None:
             for s2 in st.body:
                 if not isinstance(s2, (ast.FunctionDef, ast.AsyncFunctionDef)):
                     Fold(set()).visit(s2)
+        elif isinstance(st, (ast.Assign, ast.AnnAssign)) and st.value is not None:
+            # module-level definitions of *known* names that are built from new constants (DEF = _PART_A + _PART_B)
+            tgt = st.targets[0] if isinstance(st, ast.Assign) else st.target
+            if isinstance(tgt, ast.Name) and tgt.id in known:
+                st.value = _fold_concat(Fold(set()).visit(st.value))
+
+
+def _fold_concat(e: ast.AST) -> ast.AST:
+    """"a" + "b" of string/bytes constants -> one constant (so that definition parsers see a literal)."""
+    if isinstance(e, ast.BinOp) and isinstance(e.op, ast.Add):
+        l, r = _fold_concat(e.left), _fold_concat(e.right)
+        if isinstance(l, ast.Constant) and isinstance(r, ast.Constant) and type(l.value) is type(r.value) and type(l.value) in (str, bytes):
+            return ast.copy_location(ast.Constant(value=l.value + r.value), e)
+        e.left, e.right = l, r
+    return e
 
 
 # --------------------------------------------------------------------------------------------- helper inlining
@@ -832,10 +901,10 @@ def desugar_walrus_loops(tree: ast.Module, stats: dict) -> None:
 
 
 # --------------------------------------------------------------------------------------------- entry point
-def normalise(tree: ast.Module, modname: str, stats: dict) -> None:
+def normalise(tree: ast.Module, modname: str, stats: dict, foreign: Optional[Dict[str, Dict[str, object]]] = None) -> None:
     base = baseline().get(modname)
     if base is None:
         return  # a module the baseline does not know (scripts, new modules): left as it is
-    fold_constants(tree, set(base.get("names", [])), stats)
+    fold_constants(tree, set(base.get("names", [])), stats, foreign)
     inline_helpers(tree, set(base.get("functions", [])), stats)
     desugar_walrus_loops(tree, stats)
